@@ -25,7 +25,8 @@ TInsert ==
 TList ==
   LET r == Rec[l] IN
   /\ r.e = "list" /\ UNCHANGED <<st, k>>
-  /\ Report(r.fillers_first /\ PropList(st, r.limit, r.ret), "address list not the best ones in score order")
+  /\ IF r.panic THEN Report(FALSE, "panic in AddressStore addresses()")
+     ELSE Report(r.fillers_first /\ PropList(st, r.limit, r.ret), "address list not the best ones in score order")
 
 TAddKnown ==
   LET r == Rec[l] IN
@@ -56,8 +57,13 @@ TRediscover ==
   /\ r.e = "rediscover" /\ UNCHANGED <<st, k>>
   /\ Report(r.post = r.pre, "rediscovery changed stored scores")
 
+\* a panic of the code under test inside a manager-level round (dial by peer id, re-score, filter)
+TPanic ==
+  /\ Rec[l].e = "panic" /\ UNCHANGED <<st, k>>
+  /\ Report(FALSE, "panic of the address book / manager in a dial round")
+
 TNext == /\ l <= Len(Rec) /\ l' = l + 1
-         /\ (TReset \/ TInsert \/ TList \/ TAddKnown \/ TDialOrder \/ TRescore \/ TRediscover)
+         /\ (TReset \/ TInsert \/ TList \/ TAddKnown \/ TDialOrder \/ TRescore \/ TRediscover \/ TPanic)
 
 TSpec == TInit /\ [][TNext]_tvars
 
